@@ -9,7 +9,9 @@ from contracts import build_world
 from framework.report import base_name
 
 w = build_world()
-keys = sorted(set(k for ks in w.property_funcs.values() for k in ks))
+keys = sorted(set(k for ks in w.property_funcs.values() for k in ks))      # (thorough-only contracts included)
+os.environ['VERIF_GEN_LIMIT'] = '2400'
+check.GEN_LIMIT = 2400
 os.environ['VERIF_SCRATCH'] = '/verif/scratch/baseline'
 os.makedirs(os.environ['VERIF_SCRATCH'], exist_ok=True)
 open('/verif/baseline/obligations.json', 'w').write('{"discharged": {}}')     # no retries against a stale baseline
